@@ -207,6 +207,21 @@ def run_unit(unit, rng, ctx):
             order_s = [str(x_) for x_ in rng.permutation(['displacements', 'positions', 'cumulative', 'distances'])] + ['positions']
             examine(part, Xs, Us, m, ctx, what + f' [sub-trajectory {origin}]', order_s)
             ctx.count('sub_trajectories_not_starting_at_frame_0')
+    # a trajectory assembled from chunks with extend(); the second chunk may start with a configuration that
+    # repeats the last one of the first chunk (restart files, a static step): every input frame stays a frame
+    if T >= 3 and unit['i'] % 5 == 1:
+        k_ = int(rng.integers(1, T))
+        rep_ = bool(rng.integers(2))
+        Ub = np.concatenate([U[k_ - 1 : k_] + rng.integers(-2, 3, size=(1, N, 3)) if rep_ else np.empty((0, N, 3)), U[k_:]])
+        Ue = np.concatenate([U[:k_], U[k_ - 1 : k_] if rep_ else np.empty((0, N, 3)), U[k_:]])
+        if len(Ub) >= 1:
+            ta = build(rng, m, U[:k_], 'unwrapped' if mode == 'displacement' else mode, names)
+            tb = gen.make_trajectory(m, list(ta.species), Ub.copy())
+            ta.extend(tb)
+            if ctx.check(len(ta) == len(Ue), f'{what} [chunks joined with extend, second chunk {"repeats" if rep_ else "continues"} the last frame]: {len(ta)} frames, {len(Ue)} were put in', {'input': Ue}):
+                examine(ta, Ue - np.floor(Ue), Ue, m, ctx, what + f' [chunks joined with extend at {k_}, repeated frame: {rep_}]', [str(x_) for x_ in rng.permutation(['positions', 'displacements', 'cumulative', 'distances'])])
+            ctx.count('chunked_trajectories_joined_with_extend')
+            ctx.count('chunks_repeating_the_previous_last_frame', rep_)
     for key in ('cumulative', 'distances'):
         if key in o1 and key in o2:
             scale = max(1.0, float(np.abs(o1[key]).max()))
